@@ -1009,7 +1009,7 @@ class Walker:
                                 root = root[1]
                             if root == args[0]:
                                 val = ("vec", hvv[2])
-                if rr is not None and short(rr) in ("Option::map", "Option::and_then") and len(args) == 2 and args[1][0] == "closure" and self._desugar_option_adaptor(short(rr), args, t, st, path, visited, bb):
+                if rr is not None and short(rr) in ("Option::map", "Option::and_then", "Option::ok_or_else", "Option::unwrap_or_else") and len(args) == 2 and args[1][0] == "closure" and self._desugar_option_adaptor(short(rr), args, t, st, path, visited, bb):
                     return
                 if rr is not None and rr in ("core::bool::<impl bool>::then", "std::bool::<impl bool>::then", "core::bool::<impl bool>::then_some", "std::bool::<impl bool>::then_some", "bool::<impl bool>::then", "bool::<impl bool>::then_some") and len(args) == 2 and t["t"] is not None and self._desugar_bool_then(rr.endswith("then_some"), args, t, st, path, visited, bb):
                     return
@@ -1116,15 +1116,16 @@ class Walker:
         stays an opaque call."""
         if self.facts is None or t["t"] is None:
             return False
+        on_none = name in ("Option::ok_or_else", "Option::unwrap_or_else")  # the closure runs for None and takes no argument
         cb = self.facts.body(args[1][1])
-        if cb is None or len(cb.blocks) > 40 or cb.argc != 2:
+        if cb is None or len(cb.blocks) > 40 or cb.argc != (1 if on_none else 2):
             return False
         x = args[0]
         env1 = args[1]
         if strip_lt(cb.locals[1]["ty"]).startswith("&"):
             env1 = ("ref", args[1])
-        sub = Walker(cb, self.facts, impure=self.impure, max_paths=64, init_env={1: env1, 2: ("downcast0", x)}, max_visits=1)
-        sub.init_env[2] = self.ev._project1(("downcast", x, "Some"), {"f": "0", "i": 0, "adt": "std::option::Option", "ty": ""})
+        payload = self.ev._project1(("downcast", x, "Some"), {"f": "0", "i": 0, "adt": "std::option::Option", "ty": ""})
+        sub = Walker(cb, self.facts, impure=self.impure, max_paths=64, init_env=({1: env1} if on_none else {1: env1, 2: payload}), max_visits=1)
         try:
             sub.run()
         except Exception:
@@ -1134,11 +1135,12 @@ class Walker:
         atom = ("variant", x)
         known = st["known"].get(atom)
         branches = []
-        if known in (None, ("variant", "None")):
-            branches.append((("variant", "None"), None))
-        if known in (None, ("variant", "Some")):
+        closure_side, plain_side = (("variant", "None"), ("variant", "Some")) if on_none else (("variant", "Some"), ("variant", "None"))
+        if known in (None, plain_side):
+            branches.append((plain_side, None))
+        if known in (None, closure_side):
             for q in sub.paths:
-                branches.append((("variant", "Some"), q))
+                branches.append((closure_side, q))
         for o, q in branches:
             st2 = {"env": dict(st["env"]), "heap": dict(st["heap"]), "known": dict(st["known"]), "epoch": st["epoch"], "subst": dict(st["subst"]), "mutn": st.get("mutn", 0)}
             p2 = Path()
@@ -1149,7 +1151,12 @@ class Walker:
                 st2["known"][atom] = o
                 p2.guards.append((atom, o))
             if q is None:
-                val = ("enumc", "std::option::Option", "None")
+                if name == "Option::ok_or_else":
+                    val = ("agg", "std::result::Result", "Ok", ("0",), (payload,))
+                elif name == "Option::unwrap_or_else":
+                    val = payload
+                else:
+                    val = ("enumc", "std::option::Option", "None")
             else:
                 for a, oo in q.guards:
                     if st2["known"].get(a, oo) != oo:
@@ -1159,7 +1166,12 @@ class Walker:
                         p2.guards.append((a, oo))
                 else:
                     p2.effects.extend(q.effects)
-                    val = q.ret if name == "Option::and_then" else ("agg", "std::option::Option", "Some", ("0",), (q.ret,))
+                    if name in ("Option::and_then", "Option::unwrap_or_else"):
+                        val = q.ret
+                    elif name == "Option::ok_or_else":
+                        val = ("agg", "std::result::Result", "Err", ("0",), (q.ret,))
+                    else:
+                        val = ("agg", "std::option::Option", "Some", ("0",), (q.ret,))
                     self._assign(t["dest"], val, st2, p2, bb)
                     self._go(t["t"], st2, p2, visited)
                 continue
